@@ -84,13 +84,41 @@ func (p *Prog) loadRawSpecs(path string) error {
 	}
 	var cur *SpecDef
 	var names []string
-	for _, ln := range strings.Split(string(data), "\n") {
+	text := string(data)
+	// {{Name}} placeholders: values of package-level integer constants (AST node types, token types)
+	for {
+		i := strings.Index(text, "{{")
+		if i < 0 {
+			break
+		}
+		j := strings.Index(text[i:], "}}")
+		name := text[i+2 : i+j]
+		val := "0"
+		if obj := p.pkg.Pkg.Scope().Lookup(name); obj != nil {
+			if c, ok := obj.(*types.Const); ok {
+				val = c.Val().ExactString()
+			}
+		} else {
+			return fmt.Errorf("raw specs: unknown constant %s", name)
+		}
+		text = text[:i] + val + text[i+j+2:]
+	}
+	for _, ln := range strings.Split(text, "\n") {
 		if strings.HasPrefix(ln, ";; spec ") {
 			f := strings.Fields(strings.TrimPrefix(ln, ";; spec "))
 			cur = &SpecDef{Name: f[0], done: true}
 			rest := strings.Join(f[1:], " ")
+			inBlock := ""
+			if k := strings.Index(rest, "@in "); k >= 0 {
+				inBlock = strings.TrimSpace(rest[k+4:])
+				rest = strings.TrimSpace(rest[:k])
+			}
 			parts := strings.SplitN(rest, "->", 2)
 			cur.Ret = mkSort(strings.TrimSpace(parts[1]))
+			if inBlock != "" {
+				cur.RawDeps = append(cur.RawDeps, inBlock)
+				cur.Raw = " "
+			}
 			for _, pm := range strings.Split(parts[0], ")") {
 				pm = strings.TrimSpace(strings.TrimPrefix(strings.TrimSpace(pm), "("))
 				if pm == "" {
